@@ -28,7 +28,7 @@ _VIOL = []
 
 
 def gen_cases(seed, tier):
-    n = 160 if tier == "quick" else 4000
+    n = 160 if tier == "quick" else 12000
     cases = [{"cls": "boundary", "seed": seed * 10000 + i, "n": 12, "_w": 1} for i in range(n)]
     cases += [{"cls": "random", "seed": seed * 10000 + i, "n": 10, "_w": 1} for i in range(n // 2)]
     cases += [{"cls": "mute-shapes", "seed": seed * 10000 + i, "n": 10, "_w": 1} for i in range(n // 2)]
